@@ -133,7 +133,7 @@ def diff(a: dict[str, Any], b: dict[str, Any], relation_order: bool = False,
         ra, rb = a["relations"].get(n, []), b["relations"].get(n, [])
         ka = [(lo, hi, tuple(sorted(map(str, ch)))) for lo, hi, ch in ra]
         kb = [(lo, hi, tuple(sorted(map(str, ch)))) for lo, hi, ch in rb]
-        if (ka != kb) if relation_order else (sorted(ka) != sorted(kb)):
+        if (ka != kb) if relation_order else (sorted(ka, key=repr) != sorted(kb, key=repr)):
             out.append(("relation", f"{n!r}: relations {ra} -> {rb}"))
     ca, cb = a["constraints"], b["constraints"]
     if len(ca) != len(cb):
